@@ -68,7 +68,7 @@ impl<T: Send + Sync> ConIterOfVec<T> {
         len: usize,
     ) -> impl ExactSizeIterator<Item = T> {
         let vec = &mut *self.vec.get();
-        let end_idx = (begin_idx + len).min(vec.len());
+        let end_idx = begin_idx.saturating_add(len).min(vec.len());
         let len = end_idx - begin_idx;
 
         let ptr = vec.as_mut_ptr().add(begin_idx);
@@ -120,7 +120,10 @@ impl<T: Send + Sync> AtomicIter<T> for ConIterOfVec<T> {
         let begin_idx = self
             .progress_and_get_begin_idx(n)
             .unwrap_or(self.initial_len());
-        let end_idx = (begin_idx + n).min(self.initial_len()).max(begin_idx);
+        let end_idx = begin_idx
+            .saturating_add(n)
+            .min(self.initial_len())
+            .max(begin_idx);
 
         match begin_idx.cmp(&end_idx) {
             Ordering::Equal => None,
